@@ -1277,6 +1277,22 @@ class Exec(object):
         return self.binop(node.op, self.eval(node.left), self.eval(node.right), node.lineno)
 
     def ev_Compare(self, node):
+        # an operand that is itself a truth value occurs in BOTH polarities under == / != (an equivalence): nothing
+        # inside it may be skolemised as if it were a positive goal
+        def _boolish(x):
+            return isinstance(x, (ast.Compare, ast.BoolOp, ast.IfExp, ast.Call)) or \
+                isinstance(x, ast.UnaryOp) and isinstance(x.op, ast.Not)
+        gm = self.ctx.goal_mode
+        if gm and any(isinstance(o, (ast.Eq, ast.NotEq, ast.Is, ast.IsNot)) for o in node.ops) and \
+                any(_boolish(x) for x in [node.left] + list(node.comparators)):
+            self.ctx.goal_mode = False
+            try:
+                return self._ev_compare(node)
+            finally:
+                self.ctx.goal_mode = gm
+        return self._ev_compare(node)
+
+    def _ev_compare(self, node):
         left = self.eval(node.left)
         acc = []
         for op, rn in zip(node.ops, node.comparators):
